@@ -2210,3 +2210,173 @@ func ruleALIAS1(c *Ctx) []Ob {
 	}
 	return o.list
 }
+
+// ---------------------------------------------------------------- WRITE1
+
+// edgeNonNil: on the CFG edge p -> succ, v is known to be non-nil because p ends
+// in a nil test of v and succ is its non-nil branch.
+func edgeNonNil(p, succ *ssa.BasicBlock, v ssa.Value) bool {
+	if len(p.Instrs) == 0 || len(p.Succs) != 2 || p.Succs[0] == p.Succs[1] {
+		return false
+	}
+	i, ok := p.Instrs[len(p.Instrs)-1].(*ssa.If)
+	if !ok {
+		return false
+	}
+	x, trueMeansNil, ok := nilTest(i.Cond)
+	if !ok || !sameValue(v)(x) {
+		return false
+	}
+	onTrue := succ == p.Succs[0]
+	return onTrue != trueMeansNil
+}
+
+// successWithoutCut walks fn's CFG from the given edges, never entering a block
+// of cut, and reports the first way of finishing successfully it finds: a return
+// whose error result may be nil on the path taken (the phi edge of the
+// predecessor is used), or reaching block again. "" when there is none.
+func (c *Ctx) successWithoutCut(fn *ssa.Function, from []edge2, cut map[*ssa.BasicBlock]bool, again *ssa.BasicBlock) string {
+	errIdx := errResultIndex(fn.Signature)
+	type st struct{ p, b *ssa.BasicBlock }
+	seen := map[st]bool{}
+	var stack []st
+	for _, e := range from {
+		stack = append(stack, st{e.from, e.to})
+	}
+	for len(stack) > 0 {
+		x := stack[len(stack)-1]
+		stack = stack[:len(stack)-1]
+		if again != nil && x.b == again {
+			return "the next iteration of the loop"
+		}
+		if seen[x] || cut[x.b] {
+			continue
+		}
+		seen[x] = true
+		if ret, ok := x.b.Instrs[len(x.b.Instrs)-1].(*ssa.Return); ok {
+			if errIdx < 0 {
+				return "the return at " + relPath(c, ret.Pos())
+			}
+			ev, has := returnedValue(ret, errIdx)
+			if !has {
+				return "the return at " + relPath(c, ret.Pos())
+			}
+			if phi, ok := ev.(*ssa.Phi); ok && phi.Block() == x.b && x.p != nil {
+				for k, pr := range x.b.Preds {
+					if pr == x.p {
+						ev = phi.Edges[k]
+					}
+				}
+			}
+			nonNil := c.provablyNonNil(fn, ev, x.b)
+			if !nonNil && x.p != nil {
+				nonNil = edgeNonNil(x.p, x.b, ev) || c.provablyNonNil(fn, ev, x.p)
+			}
+			if !nonNil {
+				return "the success return at " + relPath(c, ret.Pos())
+			}
+			continue
+		}
+		for _, s := range x.b.Succs {
+			stack = append(stack, st{x.b, s})
+		}
+	}
+	return ""
+}
+
+type edge2 struct{ from, to *ssa.BasicBlock }
+
+// mustWriteDoc: every path of g from entry to a return whose error may be nil
+// passes through Tx.Set or a call to a function for which the same holds.
+func (c *Ctx) mustWriteDoc(g *ssa.Function, busy map[*ssa.Function]bool) bool {
+	if g == nil || len(g.Blocks) == 0 || busy[g] {
+		return false
+	}
+	busy[g] = true
+	defer delete(busy, g)
+	cut := c.writeCutBlocks(g, busy, false)
+	return c.successWithoutCut(g, []edge2{{nil, g.Blocks[0]}}, cut, nil) == ""
+}
+
+// writeCutBlocks: blocks of fn containing a call that certainly writes a
+// document record on success (or, with deletes, removes one).
+func (c *Ctx) writeCutBlocks(fn *ssa.Function, busy map[*ssa.Function]bool, deletes bool) map[*ssa.BasicBlock]bool {
+	cut := map[*ssa.BasicBlock]bool{}
+	for _, b := range fn.Blocks {
+		for _, in := range b.Instrs {
+			call, ok := in.(*ssa.Call)
+			if !ok {
+				continue
+			}
+			if c.isInvokeOf(call, "store", "Tx", "Set") || (deletes && c.isInvokeOf(call, "store", "Tx", "Delete")) {
+				cut[b] = true
+				continue
+			}
+			if g := staticCallee(call); g != nil && c.IsLib(c.declared(g)) && c.eff(c.declared(g))&EffDocWrite != 0 {
+				if c.mustWriteDoc(c.declared(g), busy) {
+					cut[b] = true
+				}
+			}
+		}
+	}
+	return cut
+}
+
+// WRITE1: once the caller's updater has produced the new document, every path
+// that goes on to report success (or to the next document of a bulk update)
+// writes that document's record or deletes it: no shortcut decides from the
+// document's content that the write can be skipped. (Skipping "unchanged"
+// documents needs an identity test; the comparison the library has is the
+// query ordering, under which int64 3, uint64 3 and float64 3, or one instant
+// in two zones, are equal - the stored types and zone would silently stay.)
+func ruleWRITE1(c *Ctx) []Ob {
+	o := newObs(c, "WRITE1")
+	for _, fn := range c.LibFuncs {
+		if c.pkgRel(fn) != "" {
+			continue
+		}
+		n := 0
+		for _, b := range fn.Blocks {
+			for i, in := range b.Instrs {
+				call, ok := in.(*ssa.Call)
+				if !ok || !c.isUpdaterCallback(call) {
+					continue
+				}
+				n++
+				key := c.fname(fn) + "/updated document is written"
+				if n > 1 {
+					key = fmt.Sprintf("%s #%d", key, n)
+				}
+				pos := relPath(c, call.Pos())
+				cut := c.writeCutBlocks(fn, map[*ssa.Function]bool{}, true)
+				// a write later in the updater's own block
+				sameBlock := false
+				for _, in2 := range b.Instrs[i+1:] {
+					if c2, ok := in2.(*ssa.Call); ok {
+						if c.isInvokeOf(c2, "store", "Tx", "Set") || c.isInvokeOf(c2, "store", "Tx", "Delete") {
+							sameBlock = true
+						}
+						if g := staticCallee(c2); g != nil && c.IsLib(c.declared(g)) && c.eff(c.declared(g))&EffDocWrite != 0 && c.mustWriteDoc(c.declared(g), map[*ssa.Function]bool{}) {
+							sameBlock = true
+						}
+					}
+				}
+				if sameBlock {
+					o.add(OK, key, pos, "the record is written in the same block as the updater call")
+					continue
+				}
+				var from []edge2
+				for _, sc := range b.Succs {
+					from = append(from, edge2{b, sc})
+				}
+				bad := c.successWithoutCut(fn, from, cut, b)
+				if bad == "" {
+					o.add(OK, key, pos, "every path from the updater call to a success return or to the next document passes through a call that certainly writes (or deletes) the record")
+				} else {
+					o.add(VIOLATED, key, pos, "a path leads from the updater call to %s without the document record being written or deleted: the update is acknowledged but what is stored keeps its old value, type or zone", bad)
+				}
+			}
+		}
+	}
+	return o.list
+}
